@@ -224,11 +224,22 @@ def pos_elems(form, sepval='s', kind=None):
         return (EQUAL_SEP, ('a', 1), 'bee')
     if kind == 'falsy':            # a separator that is falsy, occurring as 0 and as 0.0
         return (0, ('a', 1), 'bee')
+    if kind in TOKEN_KINDS:        # tokens of a lexer / lines of a protocol: the separator is itself a str / bytes object
+        return TOKEN_KINDS[kind]
     return (sepval, 'a', 'b')
 
 
 EQUAL_SEP = 10 ** 5 + 3           # beyond CPython's cache of small ints: int(str(EQUAL_SEP)) is a new object each time
 COPY_KINDS = ('equal', 'falsy')   # element kinds whose source is built from fresh copies
+# elements that are whole str / bytes tokens (several characters, one character, none); the first is the separator /
+# strip value: a single str or bytes object is ONE separator value, however many characters it has
+TOKEN_KINDS = {
+    'bytestok':   (b'\r\n', b'a', b''),
+    'strtok':     ('\r\n', 'ab', ''),
+    'emptybytes': (b'', b'a', b'bb'),
+    'emptystr':   ('', 'a', 'bb'),
+    'mixedtok':   (b'--', '--', b'-'),     # the str that spells the same and a byte of the separator are not separators
+}
 
 
 def fill_value(name, form):
@@ -407,7 +418,7 @@ def ev_split(c):
         pos += len(p) + (0 if grouping else 1)
     if [''.join(chars[elems.index(x)] for x in w) for w in want_el] != parts:
         raise AssertionError('oracle: positions of the str.split parts')
-    sepshape = 'sep=None' if grouping else 'sep=given'
+    sepshape = 'sep=None' if grouping else 'sep=token' if c.get('elems') in TOKEN_KINDS else 'sep=given'
     msshape = '' if ms in ('unset', None) else ',maxsplit'
     it = drain(lambda: iu().split_iter(make_src(elems, seq, form, copy), **kw()))
     if runaway(it):
@@ -873,6 +884,9 @@ def split_shards(B):
     out += [(v, f, 'unhashable') for v in ('default', 'None', 'value', 'callable') for f in ('list', 'gen')]
     # separators in the source that are equal to the given one without being the same object
     out += [(v, f, k) for k in COPY_KINDS for v in ('value', 'list', 'set') for f in ('list', 'gen')]
+    # str / bytes tokens as elements, one of them given as the separator (alone, in a collection, to a callable)
+    out += [(v, f, k) for k in TOKEN_KINDS for v in ('value', 'list', 'set', 'callable', 'tuple')
+            for f in (('list', 'gen') if v == 'value' else ('list',))]
     return out
 
 
@@ -897,7 +911,7 @@ def gen_split2(B, vf):
 def gen_strip(B, arg):
     form, fn = arg[:2]
     extra = {'elems': arg[2]} if len(arg) > 2 else {}
-    variants = ('value',) if (form in ('str', 'bytes') or extra.get('elems') in COPY_KINDS + ('eqclass',)) \
+    variants = ('value',) if (form in ('str', 'bytes') or extra.get('elems') in COPY_KINDS + ('eqclass',) + tuple(TOKEN_KINDS)) \
         else ('default', 'None', 'value')
     for seq in seqs(3, B['Ls'] - SHORTER if (extra or form in SHORT_FORMS) else B['Ls']):
         nt = 0 in seq and len(set(seq)) > 1
@@ -998,8 +1012,8 @@ PARTS = {
                                                       ('callable2', 'tuple'),
                                                       ('iter2', 'list'), ('map2', 'gen'), ('legacy2', 'list')]),
     'strip+lstrip+rstrip': (gen_strip, lambda B: [(f, fn) for fn in ('strip', 'lstrip', 'rstrip') for f in FORMS5 + SHORT_FORMS]
-                            + [(f, fn, k) for k in ('unhashable',) + COPY_KINDS for fn in ('strip', 'lstrip', 'rstrip')
-                               for f in ('list', 'gen')]
+                            + [(f, fn, k) for k in ('unhashable',) + COPY_KINDS + tuple(TOKEN_KINDS)
+                               for fn in ('strip', 'lstrip', 'rstrip') for f in ('list', 'gen')]
                             + [(f, fn, 'eqclass') for fn in ('strip', 'lstrip', 'rstrip') for f in ('str', 'list', 'gen')]),
     'unique+redundant+bucketize+partition': (gen_keyed, lambda B: KEYED),
     'chunk_ranges': (gen_ranges, lambda B: [(al, n) for n in range(1, B['ranges']['chunk_size'] + 1)
@@ -1083,6 +1097,10 @@ def run(ctx):
                                             'built object (ints alternating with the equal float), list and generator, length '
                                             '0..%d; unique, redundant, bucketize over such sources, length 0..%d'
                                             % (EQUAL_SEP, B['Ls'] - SHORTER, B['L']),
+        'str / bytes tokens as elements': 'split (sep a single token / a list / a set / a tuple of tokens / a callable) and '
+                                          'strip, lstrip, rstrip (strip value a token) over %s (the first of each is the '
+                                          'separator), list (sep a single token, strip: also generator), length 0..%d'
+                                          % ('; '.join(repr(list(v)) for v in TOKEN_KINDS.values()), B['Ls'] - SHORTER),
         'attribute-name key with elements lacking the attribute': 'unique, redundant over 5 records (keys A, A, itself, itself, '
                                                                   'None) and over {3, 5, Fraction(1, 2), "x", "y"} with '
                                                                   'key="denominator", length 0..%d' % B['Lkey'],
